@@ -1,0 +1,9 @@
+//go:build verif
+
+package parser
+
+// VerifLexerStateCount reports the number of entries in the process-global
+// lexer state map (verification builds only).
+func VerifLexerStateCount() int {
+	return lexerStates.Len()
+}
